@@ -241,6 +241,8 @@ def rule_trunc(ctx):
             # to the raise exactly for the empty outcome - however the test is spelt
             from sa import intexpr as _ie
 
+            cache_ = locals().setdefault('_trunc_cache_%s' % g.qualname.replace('.', '_'), {})
+
             def truth(test, v, val):
                 try:
                     return bool(_ie.ev(test, {v: val, 'size': 5}))
@@ -249,15 +251,21 @@ def rule_trunc(ctx):
 
             def reaching_outcomes(v):
                 """read outcomes under which every enclosing test that looks at the read result lets control through"""
-                # the tests that enclose the raise in this pass through the loop, with the arm it sits in
+                # the tests on the read result that every path to the raise passes, with the edge it takes (nested ifs,
+                # elif chains and guard clauses alike), the result not being re-read in between
+                from sa.cfg import _cuts
                 rel = []
-                cur = r.ast
-                for a_ in ancestors(r.ast, g.node):
-                    if isinstance(a_, (ast.While, ast.For)):
-                        break
-                    if isinstance(a_, ast.If) and v in [x.id for x in ast.walk(a_.test) if isinstance(x, ast.Name)]:
-                        rel.append((a_.test, any(cur is x for x in a_.body)))
-                    cur = a_
+                if 'rd' not in cache_:
+                    cache_['rd'] = reaching_defs(gcfg, g.params())
+                rd_ = cache_['rd']
+                for t_ in gcfg.nodes:
+                    if t_.kind != 'test' or t_.ast is None or v not in [x.id for x in ast.walk(t_.ast.test) if isinstance(x, ast.Name)]:
+                        continue
+                    if rd_[t_].get(v) != rd_[r].get(v):
+                        continue
+                    for lab_ in ('true', 'false'):
+                        if _cuts(gcfg, t_, lab_, r):
+                            rel.append((t_.ast.test, lab_ == 'true'))
                 if not rel:
                     return None
                 out = []
